@@ -4040,7 +4040,10 @@ class State:
 
         assert player_index is not None
 
-        if not set(cards) <= set(self.hole_cards[player_index]):
+        if any(
+                cards.count(card) > self.hole_cards[player_index].count(card)
+                for card in cards
+        ):
             raise ValueError(
                 (
                     f'The discarded cards {repr(cards)} must be a subset of'
